@@ -945,6 +945,71 @@ func extremes(r *hlib.Rand, thorough bool) {
 	}
 }
 
+// encode histories: valid encodes interleaved with encodes that are refused.  The model's `size` / `enc` are
+// pure functions of the value, so what this family ties is that the real encode() is history-free: after any
+// refused encode the next valid ones still size and write the same bytes and decode back.
+func histCase(seed uint64, steps int) {
+	line := fmt.Sprintf("hist %d %d", seed, steps)
+	run.Safe(line, func() string {
+		r := hlib.NewRand(seed)
+		lastFail := "none"
+		var trail []string
+		for i := 0; i < steps; i++ {
+			name := bodyOrder[r.Intn(len(bodyOrder))]
+			b := bodies[name]
+			ver := int16(r.Intn(int(b.MaxVer) + 1))
+			g := &sarama.VerifGen{R: hlib.NewRand(r.U64()), Version: ver, MaxLen: 3, SmallMaps: true}
+			v := b.New()
+			g.Populate(v)
+			if lastFail == "none" || r.Intn(3) == 0 {
+				kind := r.Intn(4)
+				err := sarama.VerifFailingEncode(kind, v)
+				kinds := []string{"oversize", "string-too-long", "invalid-timestamp-in-nested-fields", "refused-flag"}
+				if err == nil {
+					if kind != 0 {
+						ioFail("refused-encode-accepted:"+kinds[kind], line, fmt.Sprintf("step %d", i))
+					}
+					continue // (kind 0 on a body that encodes to nothing)
+				}
+				lastFail = kinds[kind]
+				trail = append(trail, "fail:"+lastFail)
+				run.Count("history:fail:" + lastFail)
+				continue
+			}
+			e := sarama.VerifEncodeBody(v)
+			if e.Err != nil {
+				trail = append(trail, "rejected:"+name)
+				continue
+			}
+			trail = append(trail, fmt.Sprintf("%s/v%d", name, ver))
+			run.Count("history:valid-after:" + lastFail)
+			where := fmt.Sprintf("step %d (%s v%d) after %s; history %s", i, name, ver, lastFail, strings.Join(trail, " "))
+			sig := "encode-depends-on-history:after-" + lastFail
+			switch {
+			case e.PrepLen != e.RealOff || len(e.Bytes) != e.PrepLen:
+				ioFail(sig, line, where+": own passes prep="+strconv.Itoa(e.PrepLen)+" written="+strconv.Itoa(e.RealOff))
+			case len(e.Direct) != len(e.Bytes):
+				ioFail(sig, line, fmt.Sprintf("%s: encode() returned %d bytes, a clean sizing+writing pass gives %d", where, len(e.Direct), len(e.Bytes)))
+			case sarama.VerifMaxMapLen(v) <= 1 && !bytes.Equal(e.Direct, e.Bytes):
+				ioFail(sig, line, where+": encode() bytes differ from a clean sizing+writing pass")
+			default:
+				v2 := b.New()
+				if err := sarama.VerifDecodeBody(e.Direct, v2, ver); err != nil {
+					if len(sarama.VerifTags(v)) == 0 && !knownDecodeGap(name, ver, v) {
+						ioFail(sig, line, where+": decode of encode() output: "+err.Error())
+					}
+				}
+			}
+		}
+		run.Case(line + " " + strings.Join(trail, " "))
+		run.Nontrivial(line)
+		return ""
+	})
+}
+
+// bodies whose own encoding is known not to decode (known findings of the body stream) are not this family's topic
+func knownDecodeGap(name string, ver int16, v interface{}) bool { return false }
+
 // prefixes of valid encodings: partial trailing blocks / batches, short records (correspondence only)
 func truncations(r *hlib.Rand) {
 	for i := 0; i < 40; i++ {
@@ -1061,6 +1126,11 @@ func replayLine(l string) {
 		if len(f) == 2 {
 			run.Emit(l, sarama.VerifRecordsKind(unhex(f[1])))
 		}
+	case "hist":
+		if len(f) == 3 {
+			seed, _ := strconv.ParseUint(f[1], 10, 64)
+			histCase(seed, atoi(f[2]))
+		}
 	case "xcase":
 		if len(f) == 9 {
 			seed, _ := strconv.ParseUint(f[8], 10, 64)
@@ -1174,6 +1244,13 @@ func main() {
 	batchCase(denseBatch(r.Fork(), 0, 131070, false))
 	batchCase(denseBatch(r.Fork(), 0, 131071, false))
 	extremes(r.Fork(), run.Tier == "thorough")
+	nHist := 150
+	if run.Tier == "thorough" {
+		nHist = 4000
+	}
+	for i := 0; i < nHist; i++ {
+		histCase(r.U64(), 6+r.Intn(10))
+	}
 	run.Safe("truncation stream", func() string { truncations(r); return "" })
 	constLines()
 	// every codec × level grid on one batch shape
